@@ -195,7 +195,9 @@ def run(pid, tier, seed, profile, oracle, n_quick, n_thorough, variants=None, ca
                              fresh=dict(exn=recs[i]["exn"], nvars=recs[i]["nvars"], ncons=recs[i]["ncons"]),
                              after_others=dict(exn=shared[i]["exn"], nvars=shared[i]["nvars"], ncons=shared[i]["ncons"])))
     except Exception as e:
-        viol.append(dict(kind="harness", concrete=False, what="shared-interpreter run failed", detail=str(e)[-800:]))
+        viol.append(dict(kind="oracle", concrete=False, op="isolation", key="shared-interpreter-run-failed",
+                         what="tracing the same programs one after the other in one interpreter failed although each of them runs alone (state kept by the library between runs)",
+                         detail=str(e)[-800:]))
     # property oracle on the implementation
     oviol = []
     for g in groups:
